@@ -160,6 +160,7 @@ static void run_case(Case &c)
     SongOpts so; so.max_tracks = 8; so.max_events = (int)g_w.optnum("maxevents", 40); so.tempo_changes = true; so.lone_eot = true; so.big_deltas = r.chance(0.1);
     so.game_ccs = r.chance(0.5) ? 0 : r.chance(0.5) ? 1 : 2;
     so.devices = r.chance(0.3);       // tracks name their MIDI port (FF 09): their channels are 16+ inside the player
+    so.empty_tracks = true;
     Song song = gen_song(r, so);
     // keep songs short in real time: slow tempi with big divisions make audio-driven runs expensive
     std::vector<uint8_t> file = serialize_song(song);
@@ -297,6 +298,24 @@ static void run_case(Case &c)
         }
     };
 
+    // The measured playback may be a replay: the song has been played (partly or to its end) before and was rewound. Everything the
+    // statement says holds for that playback as well (tick-driven only: through the audio call a rewind keeps the unplayed delay of the
+    // old position, which no property pins down).
+    if(drive != 2 && r.chance(0.3))
+    {
+        const double until = r.chance(0.4) ? 1e300 : r.unit() * len / mult;
+        double acc = 0, dly = 0; long g0 = 0;
+        while(g0++ < 2000000)
+        {
+            double nd = 0; API("opn2_tickEvents", nd = opn2_tickEvents(d, dly, g)); acc += dly;
+            int e0 = 0; API("opn2_atEnd", e0 = opn2_atEnd(d));
+            if(e0 || acc >= until) break;
+            dly = nd;
+        }
+        API("opn2_positionRewind", opn2_positionRewind(d));
+        cap.clear();
+        count("replays_after_a_rewind");
+    }
     // drive
     short pcm[2 * 4096 + 16];
     long guard = 0;
